@@ -8,6 +8,8 @@ from hypothesis import strategies as st
 from checks.c03_dataset_wrappers import ClassRoot
 from vlib.core import Case, Facet, Refused, Violation
 
+# thorough-tier budgets of every facet are multiplied by this factor (sized for ~5-8 min on 16 cores)
+THOROUGH_SCALE = 8
 LEVEL = "exploration"
 RULE = ("spec = sampler kind (DistributedSampler shuffle/drop_last/num_repeats 1-4, ClassBalancedSampler, WeightedSampler, "
         "RandomSampler(num_repeats)) x dataset size 1-40 (incl. < world size) x world size 1-8 x seed x two epochs; oracle "
